@@ -24,7 +24,7 @@ ASSUMPTIONS = ["cond(A - e_c M) <= 40 for every column and batch element (genera
                "must-be-silent classes: direct methods always; cg on Hermitian-flagged SPD systems with real shifts keeping them SPD, "
                "or through the normal equations when cond<=6; bicgstab on SPD and on non-Hermitian systems with cond<=12 and n>=2; "
                "broyden1 when the total number of unknowns <= 40; gmres never (only 'silent => converged')"]
-BUDGET = {"quick": {"worker_timeout": 900, "case_timeout": 120}, "thorough": {"worker_timeout": 3300, "case_timeout": 300}}
+BUDGET = {"quick": {"worker_timeout": 1200, "case_timeout": 400}, "thorough": {"worker_timeout": 3400, "case_timeout": 600}}
 
 OPKINDS = ["dense", "mv", "mv_rmv", "all", "herm_mv", "add", "sub", "mul", "matmul", "adj", "adj_mv", "jac", "add_herm"]
 METHODS = [None, "exactsolve", "custom_exactsolve", "cg", "bicgstab", "gmres", "broyden1"]
